@@ -1,15 +1,11 @@
 import os
 import vlib
 
-THEOREMS = []
+THEOREMS = ["Dispenso.Mpmc." + t for t in ['C34_bounds', 'C34_claim_unique', 'C34_slot_exclusive', 'C34_pop_gets_pushed_value', 'C34_data_written_by_owner', 'C34_full_unowned', 'C34_batch_claims_validated', 'C34_push_claim_validated', 'C34_pop_claim_validated', 'C34_quiescent', 'C34_quiescent_push_succeeds', 'C34_quiescent_push_fails', 'C34_quiescent_pop_succeeds', 'C34_quiescent_pop_fails', 'C34_fifo_history', 'C34_fifo_history_fun', 'C34_history_complete']]
 
 
 def run(ctx, replay):
-    ctx.cov["rule"] = ("random producer plans (try_push / try_push_batch) and consumer plans (try_pop / try_pop_batch / "
-                       "size, empty, full) for capacities 1..4 (exact and power-of-two buffer sizes) under the deterministic "
-                       "scheduler; element construction/move are atomic events; every trace is replayed through the Lean "
-                       "model; oracle: popped sequence is a prefix of the pushed sequence, occupancy <= capacity, "
-                       "rejections only when full/empty at call start, lifetimes balance; distinct = (K, #pushed, #popped)")
+    ctx.cov["rule"] = ('1..3 producers (try_push / try_push_batch with unique tags) and 1..3 consumers (try_pop / try_pop_into / size) on MpmcRingBuffer with capacities 2,3,4,5,8 (exact and power-of-two) under the deterministic scheduler, then a quiescent fill and drain; every trace replayed through the Lean model; oracle: no element twice or invented, size <= capacity, quiescent acceptance = free space, lifetimes balance; distinct = (K, producers, consumers, #pushed, #popped)')
     if THEOREMS:
         ctx.prove("DispensoVerif.Props.C34", THEOREMS)
     else:
